@@ -153,10 +153,24 @@ def extract():
         said = " + ".join(dparts)
         return (bool(re.search(r"\bSend\b", said)), bool(re.search(r"\bSync\b", said)))
 
+    def impl_s_bounds(src, marker, ty):
+        """does the impl say anything about the kind type `S` besides `Syntax`?"""
+        m = re.search(r"unsafe\s+impl\s*<([^>]*(?:<[^>]*>[^>]*)*)>\s*" + marker + r"\s+for\s+" + ty + r"\s*<[^>]*>\s*(where[^{]*)?\{", src)
+        if not m:
+            return None
+        text = m.group(1) + " " + (m.group(2) or "")
+        sparts = re.findall(r"\bS\s*:\s*([^,]*)", text)
+        said = " + ".join(sparts)
+        return bool(re.search(r"\b(Send|Sync)\b", said))
+
+    constrain_s = []
     for marker in ("Send", "Sync"):
         b = impl_bounds(n, marker, "SyntaxNode")
         facts[f"node{marker}NeedsDSend"] = None if b is None else b[0]
         facts[f"node{marker}NeedsDSync"] = None if b is None else b[1]
+        constrain_s.append(impl_s_bounds(n, marker, "SyntaxNode"))
+    # the kind type is never stored: the markers must not depend on it
+    facts["nodeMarkersConstrainS"] = None if None in constrain_s else any(constrain_s)
     # every other unsafe impl of Send/Sync in the syntax module would bypass these bounds
     extra = 0
     for rel in ("cstree/src/syntax/token.rs", "cstree/src/syntax/resolved.rs", "cstree/src/syntax/element.rs",
@@ -251,6 +265,24 @@ def extract():
     facts["slotReadUnderReadLock"] = lock_calls(rd) == ["read"]
     facts["slotWriteUnderWriteLock"] = lock_calls(twn) == ["write"]
     facts["teardownUnderWriteLock"] = lock_calls(dr) == ["write"]
+    # the shape of the recursive teardown (model: Teardown.tearSlot / tearL / tearRoot)
+    def order(body, pats):
+        pos = []
+        for pat in pats:
+            m = re.search(pat, body or "")
+            if not m:
+                return False
+            pos.append(m.start())
+        return pos == sorted(pos) and len(set(pos)) == len(pos)
+    facts["teardownLoopsAllSlots"] = bool(re.search(r"for\s+(\w+)\s+in\s+0\s*\.\.\s*data\s*\.\s*children\s*\.\s*len\s*\(\s*\)", dr or ""))
+    facts["teardownChildrenFirst"] = order(dr, [r"child_locks", r"if\s+let\s+Some\s*\(\s*NodeOrToken::Node\s*\(\s*node\s*\)\s*\)\s*=\s*slot",
+                                               r"node\s*\.\s*drop_recursive\s*\(\s*\)", r"child_data\s*=\s*Some\s*\(\s*node\s*\.\s*data\s*\)",
+                                               r"\*\s*slot\s*=\s*None", r"if\s+let\s+Some\s*\(\s*data\s*\)\s*=\s*child_data", r"Box::from_raw\s*\(\s*data\s*\.\s*as_ptr\s*\(\s*\)\s*\)"]) \
+        and len(re.findall(r"Box::from_raw", dr or "")) == 1 and len(re.findall(r"drop_recursive\s*\(", dr or "")) == 1
+    dp = body_of(no_hooks, r"impl\s*<\s*S\s*:\s*Syntax\s*,\s*D\s*>\s*Drop\s+for\s+SyntaxNode")
+    facts["teardownRootLast"] = order(dp, [r"fetch_sub", r"root\s*\.\s*drop_recursive\s*\(\s*\)", r"drop\s*\(\s*root\s*\)",
+                                          r"Box::from_raw\s*\(\s*root_data\s*\.\s*as_ptr\s*\(\s*\)\s*\)", r"Box::from_raw\s*\(\s*ref_count\s*\)"]) \
+        and len(re.findall(r"Box::from_raw", dp or "")) == 2
     facts["slotCellAccessSites"] = len(re.findall(r"children\s*\.\s*get_unchecked\s*\(\s*\w+\s*\)\s*\.\s*get\s*\(\s*\)", no_hooks))
 
     # ---- derive macro: comparator of the generated range assertion ------------------------------
